@@ -331,16 +331,23 @@ Definition parse_privkey (b : bytes) : option (N * bytes) := parse_pubkey b.
 
 (* ed25519.go: Raw() of a private key is seed (32) ++ public half (32).
    UnmarshalEd25519PrivateKey accepts exactly 64 bytes, or the legacy 96 bytes
-   seed ++ pub ++ pub whose two copies of the public half agree.  NOTE (transcribed as it
-   is): the public half is NOT checked against the seed. *)
+   seed ++ pub ++ pub whose two copies of the public half agree ... *)
 Definition ed25519_priv_raw (seed pub : bytes) : bytes := seed ++ pub.
 
-Definition ed25519_priv_parts (data : bytes) : option (bytes * bytes) :=
+Definition ed25519_priv_parts_unchecked (data : bytes) : option (bytes * bytes) :=
   if nlen data =? 64 then Some (firstn 32 data, skipn 32 data)
   else if nlen data =? 96 then
     let pub := firstn 32 (skipn 32 data) in
     if bytes_eqb pub (skipn 64 data) then Some (firstn 32 data, pub) else None
   else None.
+
+(* ... and (since a5f52a7) only if the public half is the public key of the seed:
+   [derive] = ed25519.NewKeyFromSeed(seed)[32:], the curve's scalar multiplication, external *)
+Definition ed25519_priv_parts (derive : bytes -> bytes) (data : bytes) : option (bytes * bytes) :=
+  match ed25519_priv_parts_unchecked data with
+  | Some (seed, pub) => if bytes_eqb pub (derive seed) then Some (seed, pub) else None
+  | None => None
+  end.
 
 (* Ed25519PrivateKey.Equals: the whole 64 bytes, i.e. both halves *)
 Definition ed25519_priv_equal (a b : bytes * bytes) : bool :=
